@@ -18,13 +18,40 @@ class AnalysisError(Exception):
     """
 
 
+class _SuppressAsTry(ast.NodeTransformer):
+    """Front-end normalisation: `with contextlib.suppress(E1, E2): BODY`
+    is `try: BODY / except (E1, E2): pass` (same lines), so that every rule
+    about handlers - syntactic or on paths - sees one construct."""
+
+    def visit_With(self, node):
+        self.generic_visit(node)
+        if len(node.items) != 1 or node.items[0].optional_vars is not None:
+            return node
+        ce = node.items[0].context_expr
+        if not (isinstance(ce, ast.Call) and not ce.keywords and ce.args and
+                ast.unparse(ce.func) in ('contextlib.suppress', 'suppress')
+                and not any(isinstance(a, ast.Starred) for a in ce.args)):
+            return node
+        typ = ce.args[0] if len(ce.args) == 1 else ast.Tuple(
+            elts=list(ce.args), ctx=ast.Load())
+        h = ast.ExceptHandler(type=typ, name=None, body=[ast.Pass()])
+        t = ast.Try(body=node.body, handlers=[h], orelse=[], finalbody=[])
+        ast.copy_location(t, node)
+        ast.copy_location(h, ce)
+        for n in ast.walk(h):
+            if not hasattr(n, 'lineno'):
+                ast.copy_location(n, ce)
+        h.end_lineno = getattr(ce, 'end_lineno', ce.lineno)
+        return ast.fix_missing_locations(t)
+
+
 class Module:
     def __init__(self, name, path, source):
         self.name = name
         self.path = path
         self.source = source
         self.sha256 = hashlib.sha256(source.encode()).hexdigest()
-        self.tree = ast.parse(source, filename=path)
+        self.tree = _SuppressAsTry().visit(ast.parse(source, filename=path))
         self.imports = {}     # local name -> qualified target
         self.aliases = {}     # module-level NAME = dotted expr
         self.consts = {}      # module-level NAME = constant ast node
